@@ -323,6 +323,19 @@ struct TypeRunner {
       return;
     }
     const std::string want = dump_str(v, true);
+    // every other writer paired with a reader: what it produced must read back to v as well
+    for (int wk = W_PED; wk < W_COUNT; wk++) {
+      if (!writer_supported<P>(wk)) continue;
+      if (wk == W_FD && w.reported > 4096) continue;
+      WResult o = write_kind<P>(wk, v, w.reported, {});
+      if (o.ok && o.bytes == w.bytes) continue;   // identical bytes: covered by the reads below
+      T dest{};
+      RResult r = o.ok ? read_kind<P>("buf", o.bytes, dest, o.pushed) : RResult{};
+      const std::string expect = "ok " + want + " " + std::to_string(o.bytes.size());
+      if (!o.ok || r.text != expect)
+        c.line('X', std::string("C01 roundtrip type=") + tid + " writer=" + wk_name[wk] + " reader=buf val=" + dump_str(v, false) +
+                        " bytes=" + (o.ok ? hex(o.bytes) : status_name(o.err)) + " got=" + r.text);
+    }
     for (const auto& rk : readers(w.bytes.size())) {
       RResult r;
       dec_lines(rk, w.bytes, w.pushed, &r);
